@@ -1158,6 +1158,29 @@ fn explore_api(kind: &str, a: &[u64], strs: &[String], bytes: &[u8]) -> String {
             Out::Panic => x_fail("from-api-panics"),
         }
     };
+    // as `nlri_case`, and the message shown for the accepted value is the one sent (the BGP-LS `length` field is
+    // computed on display)
+    let nlri_case_listed = |x: N, family: Family| -> String {
+        let sent = x.clone();
+        match guard_res(move || convert::net_from_api(api::Nlri { nlri: Some(x) }, family)) {
+            Out::Ok(v) => {
+                let r = accepted_nlri_ok(&v, family);
+                if r != "(x ok)" {
+                    return r;
+                }
+                let mut shown = match guard(|| convert::nlri_to_api(&v)) {
+                    Out::Ok(api::Nlri { nlri: Some(n) }) => n,
+                    _ => return x_fail("to-api-panics-on-accepted"),
+                };
+                if let (N::LsAddrPrefix(a), N::LsAddrPrefix(b)) = (&mut shown, &sent) {
+                    a.length = b.length;
+                }
+                if shown != sent { x_fail("listed-differs-from-added") } else { r }
+            }
+            Out::Err => "(x ok)".into(),
+            Out::Panic => x_fail("from-api-panics"),
+        }
+    };
     let esi = |k: u64| -> Option<api::EthernetSegmentIdentifier> {
         match k % 5 {
             0 => None,
@@ -1168,14 +1191,137 @@ fn explore_api(kind: &str, a: &[u64], strs: &[String], bytes: &[u8]) -> String {
         }
     };
     match kind {
-        "api-mpreach" => attr_case(A::MpReach(api::MpReachNlriAttribute {
-            family: if g(0) == 0 && g(1) == 0 { None } else { Some(api::Family { afi: g(0) as i32, safi: g(1) as i32 }) },
-            next_hops: strs.to_vec(),
-            nlris: vec![],
-        })),
+        "api-mpreach" => {
+            let family = if g(0) == 0 && g(1) == 0 { None } else { Some(api::Family { afi: g(0) as i32, safi: g(1) as i32 }) };
+            let m = A::MpReach(api::MpReachNlriAttribute { family: family.clone(), next_hops: strs.to_vec(), nlris: vec![] });
+            // the family kept in the stored carrier is the family given
+            let m2 = api::Attribute { attr: Some(m.clone()) };
+            if let (Some(f), Out::Ok(v)) = (family, guard_res(move || convert::attr_from_api(m2)))
+                && let Some(b) = v.binary()
+                && b.len() >= 3
+                && (((b[0] as i32) << 8 | b[1] as i32) != f.afi || b[2] as i32 != f.safi)
+            {
+                return x_fail("listed-differs-from-added");
+            }
+            attr_case(m)
+        }
         "api-tunnel-encap" => attr_case(A::TunnelEncap(api::TunnelEncapAttribute {
             tlvs: (0..g(0) % 3).map(|i| api::TunnelEncapTlv { r#type: (g(1) as u32).wrapping_add(i as u32 * 65536), tlvs: vec![] }).collect(),
         })),
+        // an SR-policy tunnel (type 15) whose sub-TLV fields are narrower on the wire than in the message
+        "api-sr-policy-encap" => {
+            use api::tunnel_encap_tlv::tlv::Tlv as T;
+            let sub = |t: T| api::tunnel_encap_tlv::Tlv { tlv: Some(t) };
+            let t = match g(0) % 5 {
+                0 => T::SrPreference(api::TunnelEncapSubTlvsrPreference { flags: g(1) as u32, preference: g(2) as u32 }),
+                1 => T::SrPriority(api::TunnelEncapSubTlvsrPriority { priority: g(1) as u32 }),
+                2 => T::SrEnlp(api::TunnelEncapSubTlvsrenlp { flags: g(1) as u32, enlp: (g(2) % 5) as i32 }),
+                3 => T::SrEnlp(api::TunnelEncapSubTlvsrenlp { flags: 0, enlp: g(1) as u32 as i32 }),
+                _ => T::SrSegmentList(api::TunnelEncapSubTlvsrSegmentList {
+                    weight: Some(api::SrWeight { flags: g(1) as u32, weight: g(2) as u32 }),
+                    segments: vec![],
+                }),
+            };
+            attr_case(A::TunnelEncap(api::TunnelEncapAttribute { tlvs: vec![api::TunnelEncapTlv { r#type: 15, tlvs: vec![sub(t)] }] }))
+        }
+        "api-ls-attr" => {
+            let mut ls = api::LsAttribute::default();
+            match g(0) % 3 {
+                0 => {
+                    ls.link = Some(api::LsAttributeLink {
+                        srv6_end_x_sid: Some(api::LsSrv6EndXsid {
+                            endpoint_behavior: g(1) as u32,
+                            flags: g(2) as u32,
+                            algorithm: g(3) as u32,
+                            weight: g(4) as u32,
+                            sids: vec!["2001:db8::1".to_string()],
+                            srv6_sid_structure: Some(api::LsSrv6SidStructure {
+                                local_block: g(5) as u32,
+                                local_node: 16,
+                                local_func: 16,
+                                local_arg: 0,
+                            }),
+                            ..Default::default()
+                        }),
+                        ..Default::default()
+                    })
+                }
+                1 => {
+                    ls.bgp_peer_segment = Some(api::LsAttributeBgpPeerSegment {
+                        bgp_peer_node_sid: Some(api::LsBgpPeerSegmentSid {
+                            flags: Some(api::LsBgpPeerSegmentSidFlags { value: true, local: true, ..Default::default() }),
+                            weight: g(1) as u32,
+                            sid: 100,
+                        }),
+                        ..Default::default()
+                    })
+                }
+                _ => {
+                    ls.prefix = Some(api::LsAttributePrefix {
+                        sr_prefix_sids: vec![api::LsAttributePrefixSid { algorithm: g(1) as u32, flags: g(2) as u32, sid: 100 }],
+                        ..Default::default()
+                    })
+                }
+            }
+            attr_case(A::Ls(ls))
+        }
+        "api-ls-nlri" => {
+            use api::ls_addr_prefix::ls_nlri::Nlri as L;
+            let node = || Some(api::LsNodeDescriptor { asn: 65001, igp_router_id: "0000.0000.0001".to_string(), ..Default::default() });
+            let (ty, inner) = match g(0) % 3 {
+                0 => (api::LsNlriType::Node as i32, L::Node(api::LsNodeNlri { local_node: node() })),
+                1 => (
+                    api::LsNlriType::PrefixV4 as i32,
+                    L::PrefixV4(api::LsPrefixV4nlri {
+                        local_node: node(),
+                        prefix_descriptor: Some(api::LsPrefixDescriptor {
+                            ip_reachability: vec!["10.0.0.0/8".to_string()],
+                            ospf_route_type: g(2) as u32 as i32,
+                        }),
+                    }),
+                ),
+                _ => (
+                    api::LsNlriType::Srv6Sid as i32,
+                    L::Srv6Sid(api::LsSrv6Sidnlri {
+                        local_node: node(),
+                        srv6_sid_information: Some(api::LsSrv6SidInformation { sids: vec!["2001:db8::1".to_string()] }),
+                        multi_topo_id: Some(api::LsMultiTopologyIdentifier { multi_topo_ids: vec![g(2) as u32] }),
+                    }),
+                ),
+            };
+            nlri_case_listed(
+                N::LsAddrPrefix(api::LsAddrPrefix {
+                    r#type: ty,
+                    nlri: Some(api::ls_addr_prefix::LsNlri { nlri: Some(inner) }),
+                    length: 0,
+                    protocol_id: g(1) as u32 as i32,
+                    identifier: 0,
+                }),
+                Family::LS,
+            )
+        }
+        "api-flowspec-rules" => {
+            use api::flow_spec_rule::Rule as R;
+            let rule = |r: R| api::FlowSpecRule { rule: Some(r) };
+            let v6 = g(0) == 2;
+            nlri_case_listed(
+                N::FlowSpec(api::FlowSpecNlri {
+                    rules: vec![
+                        rule(R::IpPrefix(api::FlowSpecIpPrefix {
+                            r#type: 1,
+                            prefix_len: g(2) as u32,
+                            prefix: if v6 { "2001:db8::".to_string() } else { "10.0.0.0".to_string() },
+                            offset: if v6 { g(3) as u32 } else { 0 },
+                        })),
+                        rule(R::Component(api::FlowSpecComponent {
+                            r#type: 3,
+                            items: vec![api::FlowSpecComponentItem { op: g(4) as u32, value: 6 }],
+                        })),
+                    ],
+                }),
+                Family::new(g(0) as u16, g(1) as u8),
+            )
+        }
         "api-prefix-sid" => attr_case(A::PrefixSid(api::PrefixSid {
             tlvs: (0..g(0) % 3).map(|_| api::prefix_sid::Tlv { tlv: None }).collect(),
         })),
@@ -1268,7 +1414,7 @@ fn family_of_api_nlri(t: &Term) -> Option<(i32, i32)> {
 
 /// One path through `GoBgpService::add_path` (=> `local_path`, `TableManager::insert_route`) and back through
 /// `GoBgpService::list_path` (=> `collect_paths`, `destination_to_api`) on a fresh daemon state.
-fn run_grpc(nlri_t: &Term, attrs_t: &[Term], vrps: &[(u32, u8, u8, u32)]) -> Option<String> {
+fn run_grpc(nlri_t: &Term, attrs_t: &[Term], vrps: &[(u32, u8, u8, u32)], vrf: bool) -> Option<String> {
     let nlri = api_nlri_from_term(nlri_t)?;
     let pattrs: Option<Vec<api::Attribute>> = attrs_t.iter().map(api_attr_from_term).collect();
     let pattrs = pattrs?;
@@ -1310,37 +1456,79 @@ fn run_grpc(nlri_t: &Term, attrs_t: &[Term], vrps: &[(u32, u8, u8, u32)]) -> Opt
                 return "(grpc panic)".to_string();
             }
             let fam = api::Family { afi, safi };
-            let path = api::Path { nlri: Some(nlri), family: Some(fam.clone()), pattrs, ..Default::default() };
-            let add = svc
-                .add_path(tonic::Request::new(api::AddPathRequest {
-                    table_type: api::TableType::Global as i32,
-                    path: Some(path),
-                    ..Default::default()
-                }))
-                .await;
-            if add.is_err() {
-                return "(grpc add-refused)".to_string();
-            }
-            let resp = svc
-                .list_path(tonic::Request::new(api::ListPathRequest {
-                    table_type: api::TableType::Global as i32,
-                    family: Some(fam),
-                    ..Default::default()
-                }))
-                .await;
-            let mut stream = match resp {
-                Ok(r) => r.into_inner(),
-                Err(_) => return "(grpc list-refused)".to_string(),
-            };
-            use futures::StreamExt;
-            let mut paths = Vec::new();
-            while let Some(item) = stream.next().await {
-                if let Ok(r) = item
-                    && let Some(d) = r.destination
-                {
-                    paths.extend(d.paths);
+            if vrf {
+                // a VRF that imports what it exports (the real AddVrf)
+                let rt = api::RouteTarget {
+                    rt: Some(api::route_target::Rt::TwoOctetAsSpecific(api::TwoOctetAsSpecificExtended {
+                        is_transitive: true,
+                        sub_type: 2,
+                        asn: 65000,
+                        local_admin: 100,
+                    })),
+                };
+                let req = api::AddVrfRequest {
+                    vrf: Some(api::Vrf {
+                        name: "v1".to_string(),
+                        rd: Some(api::RouteDistinguisher {
+                            rd: Some(api::route_distinguisher::Rd::TwoOctetAsn(api::RouteDistinguisherTwoOctetAsn {
+                                admin: 65000,
+                                assigned: 100,
+                            })),
+                        }),
+                        import_rt: vec![rt.clone()],
+                        export_rt: vec![rt],
+                        ..Default::default()
+                    }),
+                };
+                if svc.add_vrf(tonic::Request::new(req)).await.is_err() {
+                    return "(grpc panic)".to_string();
                 }
             }
+            let (table_type, name) =
+                if vrf { (api::TableType::Vrf as i32, "v1".to_string()) } else { (api::TableType::Global as i32, String::new()) };
+            let path = api::Path { nlri: Some(nlri), family: Some(fam.clone()), pattrs, ..Default::default() };
+            let add = svc
+                .add_path(tonic::Request::new(api::AddPathRequest { table_type, vrf_id: name.clone(), path: Some(path) }))
+                .await;
+            let uuid = match add {
+                Ok(r) => r.into_inner().uuid,
+                Err(_) => return "(grpc add-refused)".to_string(),
+            };
+            use futures::StreamExt;
+            let mut listed: Vec<Vec<api::Path>> = Vec::new();
+            for step in 0..2 {
+                if step == 1
+                    && svc
+                        .delete_path(tonic::Request::new(api::DeletePathRequest { uuid: uuid.clone(), ..Default::default() }))
+                        .await
+                        .is_err()
+                {
+                    return "(grpc delete-refused)".to_string();
+                }
+                let resp = svc
+                    .list_path(tonic::Request::new(api::ListPathRequest {
+                        table_type,
+                        name: name.clone(),
+                        family: Some(fam.clone()),
+                        ..Default::default()
+                    }))
+                    .await;
+                let mut stream = match resp {
+                    Ok(r) => r.into_inner(),
+                    Err(_) => return "(grpc list-refused)".to_string(),
+                };
+                let mut paths = Vec::new();
+                while let Some(item) = stream.next().await {
+                    if let Ok(r) = item
+                        && let Some(d) = r.destination
+                    {
+                        paths.extend(d.paths);
+                    }
+                }
+                listed.push(paths);
+            }
+            let after = listed[1].len();
+            let paths = &listed[0];
             if paths.len() != 1 {
                 return format!("(grpc listed-paths {})", paths.len());
             }
@@ -1367,6 +1555,7 @@ fn run_grpc(nlri_t: &Term, attrs_t: &[Term], vrps: &[(u32, u8, u8, u32)]) -> Opt
                 vec![
                     Term::tag("listed", vec![n, Term::list(p.pattrs.iter().map(api_attr_t).collect())]),
                     Term::tag("validation", vec![Term::atom(val)]),
+                    Term::tag("after-delete", vec![nat(after as u128)]),
                 ],
             )
             .to_string()
@@ -1472,8 +1661,9 @@ fn run_case(line: &str) -> String {
                 Out::Panic => "(from panic)".into(),
             }
         }
-        "grpc" => {
-            if l.len() != 3 && l.len() != 4 {
+        "grpc" | "grpc-vrf" => {
+            let vrf = head == "grpc-vrf";
+            if l.len() != 3 && (vrf || l.len() != 4) {
                 return BAD_CASE.into();
             }
             let Some(attrs) = l[2].as_list() else { return BAD_CASE.into() };
@@ -1501,7 +1691,7 @@ fn run_case(line: &str) -> String {
             }) {
                 return BAD_CASE.into();
             }
-            run_grpc(&l[1], attrs, &vrps).unwrap_or_else(|| BAD_CASE.into())
+            run_grpc(&l[1], attrs, &vrps, vrf).unwrap_or_else(|| BAD_CASE.into())
         }
         "x" => {
             // (x attr-<name> CODE FLAGS xBYTES) | (x nlri-<name> AFI SAFI xBYTES) | (x api-<kind> (N..) (ASTR..) xBYTES)
